@@ -139,14 +139,18 @@ def visit_order_rule(crate, prop, rule="C13.R2"):
                 n += 1
                 fate = _forward(body, t["dst"]["l"], set())
                 f, l = M.user_span(t["span"])
-                ok = bool(fate) and all(x.startswith("collect->std::collections::BTree") for x in fate)
+                # a `for dep in &deps { .. }` whose body only inserts into ordered/keyed collections sorts just as `collect` does
+                loops = [bb for bb, tt in body.calls() if not body.is_cleanup(bb) and fn_matches(tt, r"Iterator>::next$", r"Iterator::next$")
+                         and "Dependency" in (tt.get("arg_tys") or [""])[0] and "btree" not in (tt.get("arg_tys") or [""])[0]]
+                loops_ok = bool(loops) and all(_loop_accumulates_into_sets(body, bb) for bb in loops)
+                ok = bool(fate) and all(x.startswith("collect->std::collections::BTree") or (loops_ok and re.search(r"Iterator>?::next$", x)) for x in fate)
                 r.inst(fn=body.path, source="TS::dependencies()", consumed_by=fate, where="%s:%s" % (f, l), ok=ok)
                 if not ok:
                     r.fail(prop, "visit-order-consumed %s" % body.path,
                            "result of TS::dependencies() (visit order, differs between compilations) is consumed by %s instead of being sorted through a BTreeMap/BTreeSet" % fate, f, l)
             if fn_matches(t, r"Iterator>::next$", r"Iterator::next$", r"Iterator::for_each$", r"Iterator::fold$"):
                 aty = (t.get("arg_tys") or [""])[0]
-                if "Dependency" in aty and "btree" not in aty:
+                if "Dependency" in aty and "btree" not in aty and not (fn_matches(t, r"Iterator>::next$", r"Iterator::next$") and _loop_accumulates_into_sets(body, b)):
                     f, l = M.user_span(t["span"])
                     r.inst(fn=body.path, callee=_short(t), iterator=aty[:120], where="%s:%s" % (f, l), ok=False)
                     r.fail(prop, "visit-order-loop %s" % body.path, "loop over a Dependency sequence in visit order: %s" % aty[:120], f, l)
@@ -240,38 +244,29 @@ def ordered_output_rule(crate, prop, rule="C05.R4"):
     return r2
 
 
-def dedup_key_rule(syn, prop, rule="C13.R6"):
-    """`T::dependencies()` is in the visit order of the derive's hash set.  generate_imports() collects it into a BTreeMap
-    (last insertion wins on equal keys), then reads fields of the surviving values.  The result is independent of the order
-    only if equal keys imply equal values as far as those fields go: every field read later must be part of the key."""
-    from vlib import synlib as S
-    r = Result(rule, "in generate_imports() the key under which dependencies are de-duplicated contains every field of a Dependency that the import loop reads afterwards, so that which of two entries with equal keys survives (it depends on the visit order of the derive's hash set) cannot change the output")
-    fn = syn.fn("export::generate_imports", "export.rs") or syn.fn("generate_imports", "export.rs")
-    if fn is None:
+def dedup_key_rule(syn, prop, rule="C13.R6", crate=None):
+    """`T::dependencies()` is in the visit order of the derive's hash set.  generate_imports() puts it into a BTreeMap keyed
+    by parts of each Dependency (last insertion wins on equal keys), then reads fields of the surviving values.  The result
+    is independent of the order only if equal keys imply equal values as far as those fields go."""
+    r = Result(rule, "in generate_imports() (helpers included) every map whose values are dependencies is keyed by both things the import loop reads from a Dependency afterwards - its TypeScript name (String) and its output path (PathBuf) - so that which of two entries with equal keys survives (it depends on the visit order of the derive's hash set) cannot change the output; decided on the key *type* of the map, not on how it is filled")
+    gi = crate.ibody("export::generate_imports") if crate is not None else None
+    if gi is None:
         r.fail(prop, "anchor-missing generate_imports", "not found")
         return r
-    # the key: fields of the element read inside the closure handed to `.map(..)` on the chain that ends in `.collect`
-    key_fields, read, found_map = set(), set(), False
-    for e in S.events(fn, "field"):
-        if S.squash(e.get("base", "")) != "dep":
-            continue
-        in_closure = any(c["k"] == "closure" for c in e["ctx"])
-        in_map = any(c["k"] == "arg" and S.squash(str(c.get("of", ""))).endswith(".map") for c in e["ctx"])
-        in_collect = any(c["k"] == "recv" and S.squash(str(c.get("of", ""))).endswith(".collect") for c in e["ctx"])
-        if in_closure and in_map and in_collect:
-            found_map = True
-            key_fields.add(S.squash(e["member"]))
-        elif not in_closure:
-            read.add(S.squash(e["member"]))
-    if not found_map:
-        r.fail(prop, "anchor-missing dedup key", "no `.map(|dep| (key, dep)).collect()` chain found in generate_imports()", fn["file"], fn["line"])
-        return r
-    read -= {"type_id"}          # only used to drop the type itself, before the key is built
-    missing = sorted(read - key_fields)
-    r.inst(fn=fn["qual"], key_fields=sorted(key_fields), fields_read_by_import_loop=sorted(read), missing=missing)
-    if missing:
-        r.fail(prop, "dedup-key-incomplete generate_imports missing=%s" % ",".join(missing),
-               "dependencies are de-duplicated under a key made of %s, but the loop also reads %s: two dependencies with the same name in different files (`api::Item`, `db::Item`) collapse to whichever was visited last, and the visit order of the derive's HashSet differs from one compilation to the next" % (sorted(key_fields), missing),
-               fn["file"], fn["line"])
+    tys = set()
+    group = crate.owned_by("export::generate_imports")
+    for b in [gi] + [x for x in crate.bodies if x.path in group and x.kind == "Closure"]:
+        for l in b.locals:
+            for m in re.finditer(r"BTreeMap<(.*), &?(?:'\w+ )?Dependency>", l["ty"]):
+                tys.add(m.group(1))
+    for k in sorted(tys):
+        has_name, has_path = "String" in k or "str" in k, "PathBuf" in k or "Path" in k
+        r.inst(fn=gi.path, dedup_key_type=k, contains_name=has_name, contains_output_path=has_path)
+        if not (has_name and has_path):
+            r.fail(prop, "dedup-key-incomplete generate_imports missing=%s" % ("output_path" if has_name else "ts_name"),
+                   "dependencies are de-duplicated under a key of type `%s`, but the import loop reads both the name and the output path: two dependencies with the same name in different files (`api::Item`, `db::Item`) collapse to whichever was visited last, and the visit order of the derive's HashSet differs from one compilation to the next" % k,
+                   gi.file(), gi.line())
+    if not tys:
+        r.inst(fn=gi.path, dedup_key_type=None, note="no map from a key to a Dependency: nothing is de-duplicated by key (the import table is a map of sets)")
     r.floor = 1
     return r
